@@ -250,7 +250,9 @@ class BaseResponse:
 
     def __start_response__(self, start_response: Callable):  # noqa: C901
         # pylint: disable=too-many-branches
-        if self.__status_code == 304:
+        if self.__status_code == HTTP_NO_CONTENT:
+            pass    # No Content response has no representation headers
+        elif self.__status_code == 304:
             # Not Modified SHOULD NOT include other representation headers
             # https://www.rfc-editor.org/rfc/rfc9110.html#name-304-not-modified
             # pylint: disable=too-many-boolean-expressions
@@ -321,6 +323,8 @@ class BaseResponse:
             raise RuntimeError('Response can be used only once!')
         try:
             self.__start_response__(start_response)
+            if self.__status_code in (HTTP_NO_CONTENT, HTTP_NOT_MODIFIED):
+                return ()   # these responses never have a message body
             return self.__end_of_response__()
         finally:
             self.__done = True
